@@ -2,7 +2,7 @@ SPECIFICATION Spec
 CONSTANTS
   Budget = 3
   SpaceSize = 4
-  MaxMeas = 1
+  MaxMeas = 2
   Rewards <- PalNP
   Accs = {}
   Steps = {0}
